@@ -172,6 +172,25 @@ def eval_case(arg):
     if st not in (0, 1, 2) or "Traceback" in err or "INTERNAL ERROR" in err + out:
         res["crash"] = True
         return res
+    # the same program with --output json: the exit status must follow the same rule
+    d = mypyrun.scratch("c13j")
+    cdir = mypyrun.scratch("c13jcache")
+    try:
+        mypyrun.write_files(d, files)
+        mypyrun.seed_for(BASE_FLAGS + flags, "c13").copy_to(cdir)
+        jo, je, jst = mypyrun.run_inproc(BASE_FLAGS + flags + ["--output", "json", "--cache-dir", cdir, "main.py"], cwd=d)
+        sev = []
+        import json as _json
+
+        for l in jo.splitlines():
+            try:
+                sev.append(_json.loads(l).get("severity"))
+            except ValueError:
+                pass
+        res["json"] = {"st": jst, "severities": sev, "err": je[-300:]}
+    finally:
+        mypyrun.rmtree(d)
+        mypyrun.rmtree(cdir)
     if st == 2 or not any(x.severity == "error" for x in ds):
         return res  # blocked or clean: only the exit-status rule applies
     src = files["main.py"]
@@ -227,6 +246,20 @@ def eval_case(arg):
         else:
             if not codes_present:
                 continue
+            subs = [c for c in codes_present if c in pm]
+            if subs and rnd.random() < 0.5:
+                # disable the parent code but explicitly enable one of its sub-codes: enable overrides disable
+                sub = rnd.choice(subs)
+                var["kind"] = "disable-parent-enable-sub"
+                var["code"], var["sub"] = pm[sub], sub
+                var["flags"] = list(flags) + ["--disable-error-code", pm[sub], "--enable-error-code", sub]
+                vfiles = dict(files)
+                vfiles["main.py"] = files["main.py"].rstrip("\n") + "\n# mypy: disable-error-code=\"%s\", enable-error-code=\"%s\"\n" % (pm[sub], sub)
+                out2, err2, st2, _ = run_mypy(vfiles, flags)
+                ds2, rest2 = diag.parse(out2)
+                var.update({"st": st2, "ds": [tuple(x) for x in ds2], "rest": rest2, "err": err2[-800:]})
+                res["variants"].append(var)
+                continue
             c = rnd.choice(codes_present)
             var["code"] = c
             var["flags"] = list(flags) + ["--disable-error-code", c]
@@ -280,6 +313,14 @@ def judge(run: Run, res) -> None:
     e = exit_rule(base["st"], base["ds"], base["rest"])
     if e:
         run.report("exit-status|baseline|%d" % base["st"], case0, "%s: %s" % (e, base["ds"][:3]))
+    if "json" in res and "Traceback" not in res["json"]["err"]:
+        j = res["json"]
+        run.count()
+        has_err = any(x == "error" for x in j["severities"])
+        if (j["st"] == 0 and has_err) or (j["st"] == 1 and not has_err and j["severities"]) or j["st"] not in (0, 1, 2):
+            run.report("exit-status|json-output|%d" % j["st"], case0, "--output json: exit status %d with severities %s" % (j["st"], j["severities"][:6]))
+        if j["st"] != base["st"]:
+            run.report("exit-status|json-vs-text", case0, "exit status %d with --output json but %d with text output" % (j["st"], base["st"]))
     pm = parent_map()
     rec = base["rec"] or []
     once = []
@@ -293,7 +334,7 @@ def judge(run: Run, res) -> None:
     for var in res["variants"]:
         run.count()
         V = [diag.Diag(*t) for t in var["ds"]]
-        case = dict(case0, variant={k: var[k] for k in ("kind", "ann", "code", "flags") if k in var})
+        case = dict(case0, variant={k: var[k] for k in ("kind", "ann", "code", "sub", "flags") if k in var})
         if var["st"] not in (0, 1, 2) or "Traceback" in var["err"] or "INTERNAL ERROR" in var["err"]:
             run.label("crashed_variant_skipped")
             continue
@@ -306,9 +347,10 @@ def judge(run: Run, res) -> None:
             continue
         Bk = [key_of_diag(x) for x in B]
         Vk = [key_of_diag(x) for x in V]
-        if var["kind"] == "disable":
+        if var["kind"] in ("disable", "disable-parent-enable-sub"):
             c = var["code"]
             fam = {c} | {k for k, p in pm.items() if p == c}
+            fam.discard(var.get("sub"))  # an explicitly enabled sub-code stays enabled
             # the code is disabled through an inline comment in main.py, i.e. for that module only
             must_go = [k for k in Bk if k[5] in fam and k[0] == "main.py"]
             exp = [k for k in Bk if not (k[5] in fam and k[0] == "main.py")]
